@@ -666,7 +666,7 @@ class Verifier:
 
     # ---- hints, lemmas, loops --------------------------------------------------------------------------
     def after_stmt(self, ip, st, frame):
-        c = frame.contract
+        c = frame.contract or getattr(frame, "anchor_contract", None)
         if c is None or (not c.hints and not c.lemmas):
             return
         assigned = []
@@ -680,7 +680,7 @@ class Verifier:
             self.run_anchor(ip, frame, "after:" + a)
 
     def run_anchor(self, ip, frame, anchor):
-        c = frame.contract
+        c = frame.contract or getattr(frame, "anchor_contract", None)
         fr = Frame(None, frame.module, dict(frame.env))
         for at, lem, args in c.lemmas:
             if at == anchor:
@@ -797,19 +797,43 @@ class Verifier:
             rep.time = time.time() - t0
             self.reports[qual] = rep
             return rep
-        for ci, case in enumerate(c.case_list):
-            pending = [[]]
-            npaths = 0
-            while pending:
-                trace = pending.pop()
-                npaths += 1
-                if npaths > 250:
-                    rep.errors.append("path explosion (more than 250 paths)")
+        # loop-invariant variants of the contract: the default set first; an alternative set is tried only when the default one
+        # does not carry the proof, and is adopted only if EVERY obligation of the function is then discharged
+        variants = [(0, c.loops)] + sorted(getattr(c, "loop_variants", {}).items())
+        if os.environ.get("PYVC_LOOP_VARIANT"):          # developer switch: look at one variant only
+            variants = [v for v in variants if str(v[0]) == os.environ["PYVC_LOOP_VARIANT"]] or variants
+        first = None
+        default_loops = c.loops
+        try:
+            for vi, loops in variants:
+                c.loops = loops
+                rep = FunctionReport(qual)
+                tv = time.time()
+                for ci, case in enumerate(c.case_list):
+                    pending = [[]]
+                    npaths = 0
+                    while pending:
+                        trace = pending.pop()
+                        npaths += 1
+                        if npaths > 250:
+                            rep.errors.append("path explosion (more than 250 paths)")
+                            break
+                        if time.time() - tv > float(os.environ.get("PYVC_FN_BUDGET_S", "180")):
+                            rep.errors.append("time budget for one function exceeded after %d paths" % npaths)
+                            break
+                        self.run_path(rep, c, finfo, case, ci, trace, pending, canaries)
+                if vi == 0:
+                    first = rep
+                    if len(variants) == 1:
+                        break
+                if rep.ok() and any(po[2] == "return" for po in rep.path_outcomes):
+                    if vi > 0:
+                        rep.notes.add("loop invariants: variant %d of the contract carries the proof (the default set does not fit this loop)" % vi)
                     break
-                if time.time() - t0 > float(os.environ.get("PYVC_FN_BUDGET_S", "180")):
-                    rep.errors.append("time budget for one function exceeded after %d paths" % npaths)
-                    break
-                self.run_path(rep, c, finfo, case, ci, trace, pending, canaries)
+            else:
+                rep = first if first is not None else rep
+        finally:
+            c.loops = default_loops
         rep.time = time.time() - t0
         self.reports[qual] = rep
         return rep
